@@ -176,6 +176,11 @@ class ExprMixin:
             r = Num(int(r.b))
         if not (isinstance(l, Num) and isinstance(r, Num)):
             raise Unmodelled("operator %s on %r and %r at %s" % (type(op).__name__, l, r, frame.loc(node)))
+        if isinstance(op, (ast.Add, ast.Sub)):
+            la = l.addends if l.addends else [l.r]
+            rb = r.addends if r.addends else [r.r]
+            if len(la) + len(rb) <= 48:
+                return Num(addends=la + (rb if isinstance(op, ast.Add) else [-t for t in rb]))
         a, b = l.r, r.r
         if isinstance(op, ast.Add):
             return Num(a + b)
